@@ -133,7 +133,7 @@ TSOpDone ==
                     \cup Flag(rc = "err", "respAfterRibError")
                     \cup Flag(Ev.resp # expected, "opResp")
                     \cup Flag(Ev.id # HeadOp.id, "opOrder")
-                    \cup (LET foreign == {Ev.resp.results[i].id : i \in DOMAIN Ev.resp.results}
+                    \cup (LET foreign == (IF Ev.resp.k = "res" THEN {Ev.resp.results[i].id : i \in DOMAIN Ev.resp.results} ELSE {})
                                          \ {i \in DOMAIN sentby : sentby[i] = req.s}
                           IN Flag(foreign \ kids # {}, "foreignResult")
                              \cup Flag(foreign # {} /\ foreign \subseteq kids, "KF:heldOpAnsweredToOtherSession")))
